@@ -6,6 +6,7 @@ import (
 	"fmt"
 	"net/netip"
 	"os"
+	"slices"
 	"sync"
 	"testing"
 	"testing/synctest"
@@ -31,7 +32,7 @@ type EngineScript struct {
 	Engine     string     `json:"engine"` // parallel | serial
 	Replies    []EngReply `json:"replies"`
 	NoParallel bool       `json:"no_parallel"`
-	SendFailAt int        `json:"send_fail_at"` // SendProbe(ttl) returns a fatal error
+	SendFailAt []int      `json:"send_fail_at"` // SendProbe(ttl) returns a fatal error for these TTLs
 }
 
 type engDriver struct {
@@ -55,7 +56,7 @@ func (d *engDriver) GetDriverInfo() common.TracerouteDriverInfo {
 func (d *engDriver) SendProbe(ttl uint8) error {
 	d.mu.Lock()
 	defer d.mu.Unlock()
-	if d.es.SendFailAt == int(ttl) {
+	if slices.Contains(d.es.SendFailAt, int(ttl)) {
 		d.w.LogEvent("Send", "ttl", int(ttl), "fail", true)
 		return errEngFatal
 	}
@@ -122,6 +123,14 @@ func (d *engDriver) ReceiveProbe(timeout time.Duration) (*common.ProbeResponse, 
 		case <-d.notify:
 			tm.Stop()
 		case <-tm.C:
+			// a reply that became readable at the very instant of the deadline is read (the log order is then
+			// Due, Got, which is the order the spec's RDeadline/Arrive tie allows without an extra Deadline line)
+			d.mu.Lock()
+			n := len(d.queue)
+			d.mu.Unlock()
+			if n > 0 {
+				continue
+			}
 			d.w.LogEvent("Deadline")
 			return nil, &common.ReceiveProbeNoPktError{Err: os.ErrDeadlineExceeded}
 		}
@@ -142,10 +151,13 @@ func runEngine(t *testing.T, s *Scenario) (evs []wire.Event) {
 		}
 		w.LogEvent("Params", "variant", "engine_"+es.Engine, "entry", "engine", "strict", false, "min", s.Min, "max", s.Max,
 			"timeout_us", int64(s.TimeoutMs)*1000, "delay_us", int64(s.DelayMs)*1000, "poll_us", int64(s.PollMs)*1000,
-			"target", "", "port", 0, "cancel_us", s.CancelUs, "filter", false)
+			"target", "", "port", 0, "cancel_us", s.CancelUs, "filter", false, "spec", s.Extra["spec"])
 		ctx, cancel := context.WithCancel(context.Background())
 		defer cancel()
-		if s.CancelUs > 0 {
+		if boolExtra(s, "cancel_at_start") { // cancelled before the call (cancellation instant 0)
+			w.LogEvent("Cancel")
+			cancel()
+		} else if s.CancelUs > 0 {
 			tm := time.AfterFunc(time.Duration(s.CancelUs)*time.Microsecond, func() {
 				w.LogEvent("Cancel")
 				cancel()
